@@ -239,15 +239,91 @@ impl Verdict {
     }
 }
 
-/// the four cheap paths on a sub-query: does it contradict the oracle on its own?
-fn fails_alone(l: &Layout, q: &Q) -> bool {
-    let Ok(tq) = q.build(l.fields) else { return true };
-    let (must, may) = expected(l, q, Mode::Proper);
-    let r = guarded(|| panel(l, tq.as_ref(), false));
-    match r {
-        Err(_) => true,
-        Ok(obs) => !judge(&obs, &must, &may).ok(),
+#[derive(Clone, PartialEq, Debug)]
+enum Cat {
+    Ok,
+    /// panic outside the harness: signature of the panic site
+    Panic(String),
+    HarnessPanic(String),
+    /// an API call returned Err: error classes
+    Error(String),
+    /// every observation equals what the single-clause shortcut of BooleanWeight::scorer yields
+    MinShould,
+    Mismatch,
+}
+
+struct Outcome {
+    cat: Cat,
+    obs: Vec<(&'static str, Result<Obs, String>)>,
+    verdict: Option<Verdict>,
+    must: BTreeSet<u64>,
+    may: BTreeSet<u64>,
+    panic: Option<PanicInfo>,
+}
+
+fn same_cat(a: &Cat, b: &Cat) -> bool {
+    match (a, b) {
+        (Cat::Panic(x), Cat::Panic(y)) => x == y,
+        (Cat::Error(_), Cat::Error(_)) => true,
+        _ => a == b,
     }
+}
+
+/// is every observation what the single-clause shortcut (minimum_number_should_match ignored by
+/// BooleanWeight::scorer) would produce on some path?  Only used to *name* a contradiction.
+fn explained_by_shortcut(l: &Layout, q: &Q, obs: &[(&'static str, Result<Obs, String>)]) -> bool {
+    let mut sens = (BTreeSet::new(), false, false);
+    q.shortcut_sensitive(true, &mut sens);
+    if sens.0.is_empty() {
+        return false;
+    }
+    let alts = [expected(l, q, Mode::Proper), expected(l, q, Mode::ShortcutAll), expected(l, q, Mode::ShortcutNested)];
+    obs.iter().all(|(name, o)| {
+        let f = filter_of(name);
+        alts.iter().any(|(mu, ma)| {
+            let (mu, ma) = (restrict(mu, f), restrict(ma, f));
+            match o {
+                Ok(Obs::Cnt(c)) => mu.len() <= *c && *c <= ma.len(),
+                Ok(Obs::Ids(s, dup)) => !dup && mu.is_subset(s) && s.is_subset(&ma),
+                Err(_) => false,
+            }
+        })
+    })
+}
+
+fn outcome(l: &Layout, q: &Q, full: bool) -> Outcome {
+    let (must, may) = expected(l, q, Mode::Proper);
+    let mut out = Outcome { cat: Cat::Ok, obs: vec![], verdict: None, must, may, panic: None };
+    let tq = match q.build(l.fields) {
+        Ok(t) => t,
+        Err(e) => {
+            out.cat = Cat::Error("build".into());
+            out.obs.push(("build", Err(e)));
+            return out;
+        }
+    };
+    match guarded(|| panel(l, tq.as_ref(), full)) {
+        Err(p) => {
+            out.cat = if p.in_harness() { Cat::HarnessPanic(format!("{}: {}", p.location, p.message)) } else { Cat::Panic(p.sig()) };
+            out.panic = Some(p);
+        }
+        Ok(obs) => {
+            let v = judge(&obs, &out.must, &out.may);
+            out.cat = if v.ok() {
+                Cat::Ok
+            } else if !v.errors.is_empty() {
+                let classes: BTreeSet<String> = v.errors.iter().map(|e| err_class(&e.1)).collect();
+                Cat::Error(classes.into_iter().collect::<Vec<_>>().join("+"))
+            } else if explained_by_shortcut(l, q, &obs) {
+                Cat::MinShould
+            } else {
+                Cat::Mismatch
+            };
+            out.obs = obs;
+            out.verdict = Some(v);
+        }
+    }
+    out
 }
 
 fn children(q: &Q) -> Vec<&Q> {
@@ -259,10 +335,11 @@ fn children(q: &Q) -> Vec<&Q> {
     }
 }
 
-fn minimal_failing<'q>(l: &Layout, q: &'q Q) -> &'q Q {
+/// smallest sub-query that, run on its own through the four basic paths, fails the same way
+fn minimal_failing<'q>(l: &Layout, q: &'q Q, cat: &Cat) -> &'q Q {
     for c in children(q) {
-        if fails_alone(l, c) {
-            return minimal_failing(l, c);
+        if same_cat(&outcome(l, c, false).cat, cat) {
+            return minimal_failing(l, c, cat);
         }
     }
     q
@@ -354,37 +431,11 @@ fn check_pair(rep: &mut Report, l: &Layout, q: &Q, sample: bool) {
     if must != may {
         rep.count("pairs_with_documentation_open_cases(slop)", 1);
     }
-    let tq = match q.build(l.fields) {
-        Ok(t) => t,
-        Err(e) => {
-            rep.violation(
-                format!("api-error:build[{}]", q.sig_kind()),
-                json!({"query": q.json(), "error": e}),
-            );
-            return;
-        }
-    };
-    let obs = match guarded(|| panel(l, tq.as_ref(), true)) {
-        Ok(o) => o,
-        Err(p) => {
-            if p.in_harness() {
-                rep.harness_error(format!("panic in harness at {}: {}", p.location, p.message));
-            } else {
-                let min = minimal_failing(l, q);
-                rep.violation(
-                    p.sig(),
-                    json!({"panic_location": p.location, "panic_message": p.message, "query": q.json(),
-                        "minimal_failing_subquery": min.json(), "corpus": l.corpus.describe(), "layout": l.name}),
-                );
-            }
-            return;
-        }
-    };
-    rep.count("collector_runs", obs.len() as u64);
-    for (name, _) in &obs {
+    let o = outcome(l, q, true);
+    rep.count("collector_runs", o.obs.len() as u64);
+    for (name, _) in &o.obs {
         rep.observe("collector_path", *name);
     }
-    let v = judge(&obs, &must, &may);
     let n_live = l.live.len();
     if !must.is_empty() && may.len() < n_live {
         rep.nontrivial(format!("{}|{}|{}", q.shape(), l.corpus.class_key(), l.name));
@@ -397,94 +448,102 @@ fn check_pair(rep: &mut Report, l: &Layout, q: &Q, sample: bool) {
     if sample {
         rep.sample(json!({"corpus": l.corpus.describe(), "layout": l.name, "query": q.json(),
             "expected_matches": must.len(), "live_docs": n_live,
-            "observed": obs.iter().map(|(n, o)| json!([n, match o { Ok(Obs::Cnt(c)) => json!(c), Ok(Obs::Ids(s, _)) => json!(s.len()), Err(e) => json!(e)}])).collect::<Vec<_>>()}));
+            "observed": o.obs.iter().map(|(n, o)| json!([n, match o { Ok(Obs::Cnt(c)) => json!(c), Ok(Obs::Ids(s, _)) => json!(s.len()), Err(e) => json!(e)}])).collect::<Vec<_>>()}));
     }
-    if v.ok() {
+    if o.cat == Cat::Ok {
         return;
     }
-    // ---- a contradiction: classify it --------------------------------------------------------
-    let mut sens = (BTreeSet::new(), false, false);
-    q.shortcut_sensitive(true, &mut sens);
-    if !sens.0.is_empty() && must == may && v.errors.is_empty() && !v.dup {
-        // does every observation equal what the single-clause shortcut of BooleanWeight::scorer
-        // (which ignores minimum_number_should_match) would produce on that path?
-        let alts: Vec<BTreeSet<u64>> = vec![
-            must.clone(),
-            expected(l, q, Mode::ShortcutAll).0,
-            expected(l, q, Mode::ShortcutNested).0,
-        ];
-        let all_explained = obs.iter().all(|(name, o)| {
-            let f = filter_of(name);
-            match o {
-                Ok(Obs::Cnt(c)) => alts.iter().any(|a| restrict(a, f).len() == *c),
-                Ok(Obs::Ids(s, _)) => alts.iter().any(|a| &restrict(a, f) == s),
-                Err(_) => false,
+    report_failure(rep, l, q, &o);
+}
+
+/// keeps at most a few witnesses per signature and thread, so that a frequent finding cannot
+/// push rarer ones out of the (bounded) report
+fn push_violation(rep: &mut Report, sig: String, detail: Value) {
+    let n = rep.violations.iter().filter(|v| v.sig == sig).count();
+    if n >= 3 {
+        rep.count("violations_beyond_3_per_signature_and_thread", 1);
+        return;
+    }
+    rep.violation(sig, detail);
+}
+
+fn report_failure(rep: &mut Report, l: &Layout, q: &Q, o: &Outcome) {
+    let min = minimal_failing(l, q, &o.cat);
+    let base = json!({"query": q.json(), "minimal_failing_subquery": min.json(), "corpus": l.corpus.describe(), "layout": l.name});
+    let with = |extra: Value| -> Value {
+        let mut b = base.clone();
+        if let (Some(b), Some(e)) = (b.as_object_mut(), extra.as_object()) {
+            for (k, v) in e {
+                b.insert(k.clone(), v.clone());
             }
-        });
-        if all_explained {
+        }
+        b
+    };
+    match &o.cat {
+        Cat::Ok => {}
+        Cat::HarnessPanic(m) => rep.harness_error(format!("panic in harness at {m}")),
+        Cat::Panic(sig) => {
+            let p = o.panic.as_ref().unwrap();
+            push_violation(rep, sig.clone(), with(json!({"panic_location": p.location, "panic_message": p.message})));
+        }
+        Cat::MinShould => {
+            let v = o.verdict.as_ref().unwrap();
+            let mut sens = (BTreeSet::new(), false, false);
+            q.shortcut_sensitive(true, &mut sens);
             let occ: Vec<&str> = sens.0.iter().copied().collect();
             let pos = match (sens.1, sens.2) {
                 (true, false) => "top",
                 (false, true) => "nested",
                 _ => "top+nested",
             };
-            // collapse collector names to their path family to keep the signature stable
             let fam: BTreeSet<&str> = v.wrong.iter().map(|n| family(n)).collect();
-            let min = minimal_failing(l, q);
-            rep.violation(
+            push_violation(
+                rep,
                 format!(
                     "minshould:single-clause-shortcut-ignores-minimum_should_match[{}][{}][wrong={}]",
                     occ.join("+"),
                     pos,
                     fam.into_iter().collect::<Vec<_>>().join("+")
                 ),
-                json!({"query": q.json(), "minimal_failing_subquery": min.json(), "corpus": l.corpus.describe(),
-                    "layout": l.name, "expected_matches": must.len(), "contradictions": v.detail}),
+                with(json!({"expected_matches": o.must.len(), "contradictions": v.detail})),
             );
-            return;
         }
-    }
-    let min = minimal_failing(l, q);
-    let kind = composite_sig(min, l);
-    // -- class: RangeQuery routed to the fast-field path of a bool field is refused ------------
-    if let Q::RangeTyped { ty, .. } = min {
-        if *ty == T_B
-            && min.range_path() == Some("fastfield")
-            && !v.errors.is_empty()
-            && v.errors.iter().all(|e| e.1.contains("Expected term with u64, i64, f64 or date"))
-        {
-            rep.violation(
-                "range-bool-fastfield:api-error[InvalidArgument]",
-                json!({"query": q.json(), "minimal_failing_subquery": min.json(), "corpus": l.corpus.describe(),
-                    "layout": l.name, "error": v.errors[0].1}),
-            );
-            return;
+        Cat::Error(classes) => {
+            let v = o.verdict.as_ref();
+            let first = v.and_then(|v| v.errors.first().map(|e| e.1.clone())).or_else(|| o.obs.first().and_then(|x| x.1.clone().err())).unwrap_or_default();
+            // class: RangeQuery routed to the fast-field path of a bool field is refused
+            if let Q::RangeTyped { ty, .. } = min {
+                if *ty == T_B && min.range_path() == Some("fastfield") && first.contains("Expected term with u64, i64, f64 or date") {
+                    push_violation(rep, "range-bool-fastfield:api-error[InvalidArgument]".into(), with(json!({"error": first})));
+                    return;
+                }
+            }
+            push_violation(rep, format!("api-error[{}][{}]", composite_sig(min, l), classes), with(json!({"error": first})));
         }
-    }
-    // -- class: sloppy phrase with >= 3 terms ---------------------------------------------------
-    if let Q::Phrase { terms, slop } = min {
-        if *slop > 0 && terms.len() >= 3 {
-            if let Ok(tq) = min.build(l.fields) {
-                let (m_must, m_may) = expected(l, min, Mode::Proper);
-                if let Ok(o) = guarded(|| panel(l, tq.as_ref(), false)) {
+        Cat::Mismatch => {
+            let v = o.verdict.as_ref().unwrap();
+            // class: sloppy phrase with >= 3 terms
+            if let Q::Phrase { terms, slop } = min {
+                if *slop > 0 && terms.len() >= 3 {
+                    let mo = outcome(l, min, false);
                     let get = |name: &str| {
-                        o.iter().find(|x| x.0 == name).and_then(|x| match &x.1 {
+                        mo.obs.iter().find(|x| x.0 == name).and_then(|x| match &x.1 {
                             Ok(Obs::Ids(s, _)) => Some(s.clone()),
                             _ => None,
                         })
                     };
                     if let (Some(u), Some(sc)) = (get("docset"), get("topdocs")) {
                         let mut flags = vec![];
-                        if !u.is_subset(&m_may) {
+                        if !u.is_subset(&mo.may) {
                             flags.push("unscored-accepts-beyond-slop");
                         }
-                        if !m_must.is_subset(&u) {
+                        if !mo.must.is_subset(&u) {
                             flags.push("unscored-misses-within-slop");
                         }
-                        if !sc.is_subset(&m_may) {
+                        if !sc.is_subset(&mo.may) {
                             flags.push("scored-accepts-beyond-slop");
                         }
-                        if !m_must.is_subset(&sc) {
+                        if !mo.must.is_subset(&sc) {
                             flags.push("scored-misses-within-slop");
                         }
                         if flags.is_empty() && u != sc {
@@ -498,75 +557,73 @@ fn check_pair(rep: &mut Report, l: &Layout, q: &Q, sample: bool) {
                                     .map(|d| json!({"id": d.id, "body": d.json()["body"]}))
                                     .collect()
                             };
-                            rep.violation(
+                            push_violation(
+                                rep,
                                 format!("phrase-slop-3+terms[{}]", flags.join("+")),
-                                json!({"query": q.json(), "minimal_failing_subquery": min.json(),
-                                    "corpus": l.corpus.describe(), "layout": l.name,
-                                    "standalone": {"oracle_must": m_must.len(), "oracle_may": m_may.len(),
+                                with(json!({"standalone": {"oracle_must": mo.must.len(), "oracle_may": mo.may.len(),
                                         "unscored(DocSetCollector)": u.len(), "scored(TopDocs)": sc.len(),
-                                        "unscored_beyond_slop": wit(&u, &m_may), "unscored_missed": wit(&m_must, &u),
-                                        "scored_beyond_slop": wit(&sc, &m_may), "scored_missed": wit(&m_must, &sc)},
-                                    "contradictions": v.detail}),
+                                        "unscored_beyond_slop": wit(&u, &mo.may), "unscored_missed": wit(&mo.must, &u),
+                                        "scored_beyond_slop": wit(&sc, &mo.may), "scored_missed": wit(&mo.must, &sc)},
+                                    "contradictions": v.detail})),
                             );
                             return;
                         }
                     }
                 }
             }
-        }
-    }
-    let which = if !v.errors.is_empty() {
-        let classes: BTreeSet<String> = v.errors.iter().map(|e| err_class(&e.1)).collect();
-        format!("api-error:{}", classes.into_iter().collect::<Vec<_>>().join("+"))
-    } else if v.dup {
-        "duplicate-address".to_string()
-    } else {
-        let missing = v.detail.iter().any(|d| d.get("missing_ids").and_then(|x| x.as_array()).map(|a| !a.is_empty()).unwrap_or(false)
-            || d.get("count").and_then(|c| c.as_u64()).map(|c| (c as usize) < must.len()).unwrap_or(false));
-        let extra = v.detail.iter().any(|d| d.get("unexpected_ids").and_then(|x| x.as_array()).map(|a| !a.is_empty()).unwrap_or(false)
-            || d.get("count").and_then(|c| c.as_u64()).map(|c| (c as usize) > may.len()).unwrap_or(false));
-        let dir = match (missing, extra) {
-            (true, false) => "docs-missing",
-            (false, true) => "docs-unexpected",
-            (true, true) => "docs-missing-and-unexpected",
-            _ => "open-zone",
-        };
-        if v.disagree {
-            let fam: BTreeSet<&str> = v.wrong.iter().map(|n| family(n)).collect();
-            format!("{dir}:collectors-disagree:wrong={}", fam.into_iter().collect::<Vec<_>>().join("+"))
-        } else {
-            format!("{dir}:all-collectors-contradict-oracle")
-        }
-    };
-    let mut ids: Vec<u64> = vec![];
-    for d in &v.detail {
-        for k in ["missing_ids", "unexpected_ids"] {
-            if let Some(a) = d.get(k).and_then(|x| x.as_array()) {
-                ids.extend(a.iter().filter_map(|x| x.as_u64()));
+            let missing = v.detail.iter().any(|d| {
+                d.get("missing_ids").and_then(|x| x.as_array()).map(|a| !a.is_empty()).unwrap_or(false)
+                    || d.get("count").and_then(|c| c.as_u64()).map(|c| (c as usize) < o.must.len()).unwrap_or(false)
+            });
+            let extra = v.detail.iter().any(|d| {
+                d.get("unexpected_ids").and_then(|x| x.as_array()).map(|a| !a.is_empty()).unwrap_or(false)
+                    || d.get("count").and_then(|c| c.as_u64()).map(|c| (c as usize) > o.may.len()).unwrap_or(false)
+            });
+            let dir = match (missing, extra) {
+                (true, false) => "docs-missing",
+                (false, true) => "docs-unexpected",
+                (true, true) => "docs-missing-and-unexpected",
+                _ => "open-zone",
+            };
+            let which = if v.dup {
+                "duplicate-address".to_string()
+            } else if v.disagree {
+                let fam: BTreeSet<&str> = v.wrong.iter().map(|n| family(n)).collect();
+                format!("{dir}:collectors-disagree:wrong={}", fam.into_iter().collect::<Vec<_>>().join("+"))
+            } else {
+                format!("{dir}:all-collectors-contradict-oracle")
+            };
+            let mut ids: Vec<u64> = vec![];
+            for d in &v.detail {
+                for k in ["missing_ids", "unexpected_ids"] {
+                    if let Some(a) = d.get(k).and_then(|x| x.as_array()) {
+                        ids.extend(a.iter().filter_map(|x| x.as_u64()));
+                    }
+                }
             }
+            ids.sort();
+            ids.dedup();
+            ids.truncate(3);
+            let docs: Vec<Value> = ids
+                .iter()
+                .filter_map(|id| l.corpus.docs.iter().find(|d| d.id == *id))
+                .map(|d| json!({"doc": d.json(), "deleted": l.corpus.deleted_ids.contains(&d.id)}))
+                .collect();
+            push_violation(
+                rep,
+                format!("mismatch[{}][{which}]", composite_sig(min, l)),
+                with(json!({"expected_matches": if o.must == o.may { json!(o.must.len()) } else { json!([o.must.len(), o.may.len()]) },
+                    "contradictions": v.detail, "witness_docs": docs})),
+            );
         }
     }
-    ids.sort();
-    ids.dedup();
-    ids.truncate(3);
-    let docs: Vec<Value> = ids
-        .iter()
-        .filter_map(|id| l.corpus.docs.iter().find(|d| d.id == *id))
-        .map(|d| json!({"doc": d.json(), "deleted": l.corpus.deleted_ids.contains(&d.id)}))
-        .collect();
-    rep.violation(
-        format!("mismatch[{kind}][{which}]"),
-        json!({"query": q.json(), "minimal_failing_subquery": min.json(), "corpus": l.corpus.describe(),
-            "layout": l.name, "expected_matches": if must == may { json!(must.len()) } else { json!([must.len(), may.len()]) },
-            "contradictions": v.detail, "witness_docs": docs}),
-    );
 }
 
 fn run_case(case: u64, rng: &mut Rng, rep: &mut Report, quick: bool) {
     let cfg = if quick {
-        CorpusCfg { max_big: 4600, class_weights: [4, 5, 4, 2, 1] }
+        CorpusCfg { max_big: 4600, class_weights: [4, 5, 4, 2, 2] }
     } else {
-        CorpusCfg { max_big: 10_000, class_weights: [4, 5, 4, 2, 1] }
+        CorpusCfg { max_big: 10_000, class_weights: [4, 5, 4, 2, 2] }
     };
     let corpus = gen_corpus(rng, &cfg);
     rep.observe("corpus_class", corpus.class_key());
@@ -601,7 +658,11 @@ fn run_case(case: u64, rng: &mut Rng, rep: &mut Report, quick: bool) {
                 7 | 8 => 3,
                 _ => 4,
             };
-            gen.query(rng, depth)
+            if i % 5 == 3 {
+                gen.template(rng)
+            } else {
+                gen.query(rng, depth)
+            }
         })
         .collect();
     let live: Vec<&MDoc> = corpus.live().collect();
@@ -699,7 +760,7 @@ fn run_case(case: u64, rng: &mut Rng, rep: &mut Report, quick: bool) {
 fn main() {
     let ctx = Ctx::from_env("C03", "exploration");
     let quick = ctx.quick();
-    let n = ctx.scale(28, 420) as u64;
+    let n = ctx.scale(64, 420) as u64;
     let rep = run_cases(&ctx, "main", n, |case, rng, rep| run_case(case, rng, rep, quick));
     let _unused: BTreeMap<u8, u8> = BTreeMap::new();
     simple_finish(
